@@ -461,3 +461,51 @@ Definition decode_component (st : pystate) (comp : pystr) (shape : list (Z * Z))
            (slices : list (list (list Z))) : list band :=
   let bands := map sb_band (scatter_all st comp (init_bands st comp shape) slices) in
   if dc then match bands with b :: r => dc_prediction b :: r | [] => [] end else bands.
+
+(* ------------------------------------------------------------------------ *)
+(* One slice through the wire, and one picture's coefficient arrays through   *)
+(* the slices (used by the composed C04 theorems)                             *)
+(* ------------------------------------------------------------------------ *)
+(* decoder slice_band: inverse_quant(val, max(qindex - matrix entry, 0)) *)
+Definition dequantize_coeffs (qindex : Z) (vals qms : list Z) : list Z :=
+  map (fun p => inverse_quant (fst p) (py_max (qindex - snd p) 0)) (combine vals qms).
+
+(* HQ (13.5.4): each component is a bounded block of 8*scaler*length bits, from which as many
+   coefficients are read as the slice has positions (= entries of the matrix-value list) *)
+Definition hq_slice_roundtrip (s : Z) (sc : scoeffs) (sl : hq_slice) : list Z * list Z * list Z :=
+  let rd len cs qms :=
+    dequantize_coeffs (hq_qindex sl) (read_coeffs (length qms) (block_bits (Z.to_nat (8 * s * len)) cs)) qms in
+  (rd (hq_y_length sl) (hq_y sl) (snd (sc_Y sc)),
+   rd (hq_c1_length sl) (hq_c1 sl) (snd (sc_C1 sc)),
+   rd (hq_c2_length sl) (hq_c2 sl) (snd (sc_C2 sc))).
+
+(* LD (13.5.3.1): luma block of slice_y_length bits, colour-difference block of the rest *)
+Definition ld_slice_roundtrip (slice_bytes_ : Z) (sc : scoeffs) (sl : ld_slice) : list Z * list Z * list Z :=
+  let cq := interleave (snd (sc_C1 sc)) (snd (sc_C2 sc)) in
+  let y := dequantize_coeffs (ld_qindex sl)
+             (read_coeffs (length (snd (sc_Y sc))) (block_bits (Z.to_nat (ld_y_length sl)) (ld_y sl))) (snd (sc_Y sc)) in
+  let c := dequantize_coeffs (ld_qindex sl)
+             (read_coeffs (length cq) (block_bits (Z.to_nat (ld_payload_bits slice_bytes_ - ld_y_length sl)) (ld_c sl))) cq in
+  (y, fst (deinterleave c), snd (deinterleave c)).
+
+(* the encoder's DC prediction is applied to the first subband (LL / L) only *)
+Definition dc_bands (bs : list subband) : list subband :=
+  match bs with
+  | s :: r => (sb_level s, sb_qm s, apply_dc_prediction (sb_band s)) :: r
+  | [] => []
+  end.
+
+Definition shape_of (bs : list subband) : list (Z * Z) := map (fun s => (sb_level s, sb_qm s)) bs.
+
+(* the three components of one slice as gathered by transform_and_slice_picture *)
+Definition gathered (st : pystate) (yb c1b c2b : list subband) (sx sy : Z) : scoeffs :=
+  (gather_component st Str_Y yb sx sy, gather_component st Str_C1 c1b sx sy, gather_component st Str_C2 c2b sx sy).
+
+(* decoder: the arrays of the three components, given the values read for each slice *)
+Definition decode_picture (st : pystate) (shy shc1 shc2 : list (Z * Z)) (dc : bool)
+           (V : Z -> Z -> list Z * list Z * list Z) : list band * list band * list band :=
+  let grid (f : list Z * list Z * list Z -> list Z) :=
+    map (fun sy => map (fun sx => f (V sx sy)) (zrange 0 (st_slices_x st))) (zrange 0 (st_slices_y st)) in
+  (decode_component st Str_Y shy dc (grid (fun v => fst (fst v))),
+   decode_component st Str_C1 shc1 dc (grid (fun v => snd (fst v))),
+   decode_component st Str_C2 shc2 dc (grid (fun v => snd v))).
